@@ -10,6 +10,7 @@ pub mod classic;
 pub mod backref;
 pub mod run;
 pub mod progs;
+pub mod interp_oracles;
 
 /// One request line `<KIND> <id> <args…>` ↦ reply body (without the id).
 pub fn run_request(kind: &str, args: &[&str]) -> String {
@@ -43,7 +44,7 @@ pub fn gen_stream(name: &str, seed: u64, n: usize, tier: &str) -> Vec<String> {
     let mut rng = rng::Rng::new(seed ^ util::fnv(name));
     match name {
         "varint" => varint::generate(&mut rng, n, tier),
-        "crypto" => crypto::generate(&mut rng, n, tier),
+        "crypto" | "crypto_pairing" => crypto::generate(name, &mut rng, n, tier),
         "hash" | "thash" | "thash_stream" => treehash::generate(name, &mut rng, n, tier),
         "alloc" | "alloc_limits" | "alloc_small" | "alloc_ints" => alloc::generate(name, &mut rng, n, tier),
         "classic" => classic::generate(&mut rng, n, tier),
@@ -67,6 +68,9 @@ pub fn run_oracle(name: &str, seed: u64, n: usize, tier: &str) -> util::OracleRe
         "classic" => classic::oracle(&mut rng, n, tier),
         s if s.starts_with("backref_") => backref::oracle(s, &mut rng, n, tier),
         "classic_big" => classic::oracle_big(&mut rng, n, tier),
+        "interp_guards" => interp_oracles::oracle_guards(&mut rng, n, tier),
+        "interp_sha256tree" => interp_oracles::oracle_sha256tree(&mut rng, n, tier),
+        s if s.starts_with("interp_") => interp_oracles::oracle(&s[7..], &mut rng, n, tier),
         _ => panic!("unknown oracle {name}"),
     }
 }
